@@ -13,7 +13,8 @@ PROPERTY = 'C12'
 RULE = ('Generated (start, end, pre_market, post_market) with end time-of-day >= start time-of-day: start dates '
         'uniform over 1990-2040 plus edge dates (leap days, year ends, month ends on weekends, each weekday), '
         'durations {0..8} u U(9,70) u U(71,800) days, plus end<start cases that must be rejected. Oracle: event '
-        'list rebuilt from datetime.date arithmetic, compared for equality, and strictly increasing. Distinct = '
+        'list rebuilt from datetime.date arithmetic, compared for equality, strictly increasing, and identical when '
+        'the same engine object is iterated a second time. Distinct = '
         'distinct case JSON; non-trivial = the range spans a weekend with >=2 business days, or is a single day, '
         'or has no business day, or crosses a month/year/leap-day boundary, or is an end<start rejection.')
 ASSUMPTIONS = [
